@@ -1,6 +1,6 @@
 SPECIFICATION Spec
 CONSTANTS Procs = {1, 2} Keys = {"a"} MaxOps = 2 Defect = "none"
-  MapOps = {"store", "load", "delete", "loadanddelete", "len", "clear"}
+  MapOps = {"store", "load", "delete", "loadanddelete", "len", "clear", "range"}
   AtomOps = {"getorcreate", "get", "adelete", "aclear", "hadd", "hload"}
 INVARIANTS LinOK OneWinner SameHandle NoLostAdd MutualExclusion ImplMatchesAbs
 CHECK_DEADLOCK FALSE
